@@ -224,13 +224,18 @@ func enumerateFaults(c *check.Ctx, prop, sub string, kinds map[string]bool, acti
 						c.Rep.Outcomes[sub+":ok"]++
 						continue
 					}
-					// confirm
+					// confirm (a hang with twice the guard)
+					oldGuard := core.HangGuard
+					if sym == "hang" {
+						core.HangGuard = 2 * oldGuard
+					}
 					var o2 faultObs
 					if v.ndist > 0 {
 						o2 = runFaultDist(cs, f)
 					} else {
 						o2 = runFault(cs, f)
 					}
+					core.HangGuard = oldGuard
 					if s2, _ := oracle(cs, clean, f, o2); s2 == "" {
 						c.Rep.Extra["unreproduced_failures"]++
 						continue
